@@ -11,6 +11,7 @@ require (
 	github.com/evstack/ev-node/da v0.0.0
 	github.com/evstack/ev-node/sequencers/based v0.0.0
 	github.com/evstack/ev-node/sequencers/single v0.0.0
+	github.com/filecoin-project/go-jsonrpc v0.7.1
 	github.com/ipfs/go-datastore v0.8.2
 	github.com/ipfs/go-log/v2 v2.6.0
 	github.com/libp2p/go-libp2p v0.41.1
@@ -29,7 +30,6 @@ require (
 	github.com/dgraph-io/badger/v4 v4.5.1 // indirect
 	github.com/dgraph-io/ristretto/v2 v2.1.0 // indirect
 	github.com/dustin/go-humanize v1.0.1 // indirect
-	github.com/filecoin-project/go-jsonrpc v0.7.1 // indirect
 	github.com/fsnotify/fsnotify v1.8.0 // indirect
 	github.com/go-kit/kit v0.13.0 // indirect
 	github.com/go-viper/mapstructure/v2 v2.3.0 // indirect
